@@ -1171,6 +1171,13 @@ def rolling_window(
     window_region = [
         dimension + (-1) ** (i % 2) * size / 2 for i, dimension in enumerate(region)
     ]
+    # A window as large as the region leaves a single center in that direction.
+    # Round-off can then invert the two bounds by a few ulps (the size was
+    # already checked against the region), so collapse them to the middle.
+    for lower, upper in ((0, 1), (2, 3)):
+        if window_region[lower] > window_region[upper]:
+            middle = (region[lower] + region[upper]) / 2
+            window_region[lower] = window_region[upper] = middle
     _check_rolling_window_overlap(window_region, size, shape, spacing)
     centers = grid_coordinates(
         window_region, spacing=spacing, shape=shape, adjust=adjust
